@@ -111,6 +111,15 @@ class C07(core.Prop):
                 defn["name"] = devices[k]["defn"]["name"] + "T"
                 ops = [drvgen.random_op(rng, defn) for _ in range(rng.randint(0, 4))]
                 devices.append({"defn": defn, "ops": ops, "twin_of": k})
+            if i % 6 == 0:
+                # flags changed while the enclosing group is disabled must be remembered when it comes back
+                dd = devices[0]
+                vecs0 = drvgen.all_vectors(dd["defn"])
+                vn0 = rng.choice(sorted(vecs0))
+                g0, v0 = vecs0[vn0]
+                dd["ops"] = dd["ops"][:3] + [["engrp", g0["key"], False], ["envec", vn0, rng.random() < 0.7 and False or True],
+                                             ["enelem", vn0, rng.randrange(len(v0["elements"])), rng.random() < 0.5],
+                                             ["engrp", g0["key"], True]] + dd["ops"][3:5]
             target = rng.choice(devices)
             vecs = drvgen.all_vectors(target["defn"])
             name = rng.choice([None, None, rng.choice(sorted(vecs)), "NOPE", ""])
